@@ -1,13 +1,21 @@
 """C06 — retry delays follow the wait strategy in documented order."""
 from __future__ import annotations
 
+import random
+
 from .. import policy
 from ..engine import monitors, suite
-from ..runner import Env, Outcome
+from ..runner import Divergence, Driver, Env, Outcome, Violation, diff_streams
 
 THEOREMS = ["C06_delayed_retry_parked", "C06_not_before_delay", "C06_only_timer_releases", "C06_refuted_witness",
             "C06_refuted", "C06_delay_index_actual", "C06_source_shape", "C06_results_keep_retry_record", "C06_collect_rerun_keeps_retry_number",
-            "C06_stale_collect_reruns_in_place", "C06_failure_after_rerun_counts_on"]
+            "C06_stale_collect_reruns_in_place", "C06_failure_after_rerun_counts_on",
+            # every history (runner invariant, WfProofs/RunnerRetryDelay.lean) and every chain / parameter / retry number
+            "C06_retry_never_before_its_delay", "C06_pending_retries_wait_out_their_delay",
+            "C06_fresh_run_retry_never_before_its_delay", "C06_every_action_keeps_delays",
+            "C06_chain_link_of_retry", "C06_chain_head_never_used", "C06_refuted_for_every_such_chain",
+            "C06_exponential_delay_of_retry", "C06_first_retry_delays", "C06_delay_source_shape",
+            "C06_failure_of_rescheduled_execution_skipped"]
 LEAN_TARGETS = ["WfProps.C06"]
 EXPLANATION = (
     "Proved on the runner LTS: a retry granted with delay d>0 at time t is parked in the timer heap for t+d and only the "
@@ -22,9 +30,81 @@ EXPLANATION = (
     "collecting steps with 2-3 workers and incrementing / exponential / chained waits whose retried invocation is re-run "
     "between two failures: delay after failure k recomputed from the spec's numbers against the virtual-clock "
     "timestamps (C06/retry_too_early:after_collect_rerun...), and the number handed to next() at the k-th failure is k "
-    "(C06/failure_number_handed_to_policy...)."
+    "(C06/failure_number_handed_to_policy...). "
+    "Whole-run form (C06_retry_never_before_its_delay, runner invariant C06Inv preserved by every action, from a fresh or "
+    "resumed start, every action list): every re-admitted retry in the tick log was reduced no earlier than the failure time "
+    "its record carries plus the delay the policy grants for exactly that failure; parked / buffered retries likewise. "
+    "Policy side for all chains, parameters and retry numbers: which chain link answers retry k, the chain head is never "
+    "consulted for k>=1 by any composed policy, the documented-order clause fails for every chain of fixed waits whose first "
+    "two links differ, exact k-th delay of the exponential / incrementing strategies against the regenerated bodies. "
+    "C06_delay_source_shape pins the delay path of the source (retry command record, delay>0 parking test, get_now()+delay, "
+    "pop_due_ticks <= now, failed_at sources). New K stream: one policy object answers a whole failure history as the loop asks."
 )
-ASSUMPTIONS = suite.ENGINE_ASSUMPTIONS
+ASSUMPTIONS = suite.ENGINE_ASSUMPTIONS + [
+    "C06_retry_never_before_its_delay assumes (explicit hypotheses c06ActsOk / c06InitOk, counter-example beside the theorem): a "
+    "worker's failed_at is not later than the clock at which its result is queued (failed_at = time.time() / adapter.get_now() "
+    "read when the step raises; adapter contract: get_now() is the epoch clock, monotone), ticks sent from outside carry no "
+    "failure record (ctx.send_event builds a bare TickAddEvent), and a resumed state's waiters hold only records already served.",
+]
+
+
+def history_stream(env: Env, out: Outcome, n: int) -> None:
+    """(K) one policy OBJECT answering the whole failure history of one invocation the way the control loop asks it
+    (`_process_step_result_tick`): failure k = 1, 2, ... with `elapsed = failed_at - first_attempt_at`, where the clock
+    advanced by the run time of each attempt plus every delay the policy granted itself before; the same questions go to
+    the model (`next` lines of `wfdriver policy`).  The independent stream of `policy.correspondence` draws attempt numbers
+    and elapsed times at random and never asks one object twice in sequence.  (S) on the same histories, independent of
+    the model: a granted delay is never negative (a negative delay would be buffered at once, `delay > 0` is the parking
+    test) and the same object asked the same question again answers the same."""
+    RP = policy.RP
+    rng = random.Random(env.rng.randrange(1 << 30))
+    real_random = RP.random
+    RP.random = policy._StubRandomModule  # type: ignore[assignment]
+    ops: list[str] = []
+    exp: list[str] = []
+    try:
+        for _ in range(n):
+            (c, cs), (w, ws), (s, ss) = policy.gen_cond(rng), policy.gen_wait(rng), policy.gen_stop(rng)
+            pol = RP.retry_policy(retry=c, wait=w, stop=s)
+            seed = rng.randrange(257)
+            u = policy.q(seed / 256.0)
+            e = rng.randrange(10)
+            t = 0.0
+            granted = 0
+            limit = rng.choice([2, 3, 5, 8])
+            for k in range(1, limit + 1):
+                t += rng.choice([0, 0.5, 1, 3])  # run time of the attempt that fails now
+                d = pol.next(t, k, policy.mk_exc(e), seed=seed)
+                ops.append(f"next {cs} {ws} {ss} {policy.q(t)} {k} {e} {u}")
+                exp.append(policy.fmt(d))
+                out.evaluations += 1
+                again = pol.next(t, k, policy.mk_exc(e), seed=seed)
+                if policy.fmt(again) != exp[-1]:
+                    out.violations.append(Violation(f"{env.prop}/policy_object_not_reusable:in_history", f"failure {k} of a history: next({t}, {k}) of one policy object ({cs} | {ws} | {ss}) answered {exp[-1]} and then {policy.fmt(again)}", {"op": ops[-1]}))
+                if d is None:
+                    break
+                if d < 0:
+                    out.violations.append(Violation(f"{env.prop}/negative_delay_granted", f"failure {k}: next({t}, {k}) of ({cs} | {ws} | {ss}) granted the negative delay {d}", {"op": ops[-1]}))
+                granted += 1
+                t += d
+            out.count(f"hist:retries_granted={min(granted, 5)}{'+' if granted >= 5 else ''}")
+            out.count("hist:wait=" + ws.split()[0])
+            out.count("hist:ended_by=" + ("policy" if granted < limit else "history_length"))
+            out.nontrivial(("hist", cs, ws, ss, seed, e, granted))
+    finally:
+        RP.random = real_random  # type: ignore[assignment]
+    for o in ops[:3]:
+        out.sample({"history_op": o})
+    try:
+        mo = Driver("policy").run(ops)
+    except Exception as ex:
+        out.divergences.append(Divergence("policy-history", 0, "<driver>", repr(ex), ""))
+        return
+    out.traces_validated += len(ops)
+    out.disagreements_checked += len(ops)
+    d = diff_streams("policy-history", ops, mo, exp)
+    if d is not None:
+        out.divergences.append(d)
 
 
 def run(env: Env) -> Outcome:
@@ -34,6 +114,7 @@ def run(env: Env) -> Outcome:
                 "distinct by (spec, schedule)")
     policy.correspondence(env, out, env.budget(3000, 60000))
     policy.units_stream(env, out, env.budget(150, 3000))
+    history_stream(env, out, env.budget(400, 8000))
     suite.direct_corr(env, out, env.budget(1500, 30000))
     suite.live_runs(env, out, env.budget(150, 3000), [monitors.mon_c06], extra_specs=suite.load_corpus("C06"))
     suite.live_runs(env, out, env.budget(300, 6000), [monitors.mon_c06], gen_kwargs={"family": "retry"})
